@@ -70,11 +70,15 @@ Inductive step :=
   | SMkdir (k : nat)                      (* probe_path.mkdir(parents=True, exist_ok=True) *)
   | STrunc (p : path)                     (* open(p, "wb") *)
   | SAppendSh (n : nat) (e : etype) (last : bool)  (* _split2shanks(chunk, e): tofile on every shank k < n *)
+  | SAppendSub (sub : list nat) (e : etype) (last : bool)  (* the same when init_params(nshank=sub) restricts the shanks *)
   | SAppend21 (last : bool)               (* _split2shanks(chunk, "lf") of an NP2.1 run *)
   | SWriteMeta (o : owner)                (* spikeglx.write_meta_data (stat()s the data file first) *)
   | SCorrupt (p : path)                   (* adversary (harness): flips bytes of p before verification *)
   | SCheckBegin                           (* check_NP24 entered: self.check_completed = False *)
   | SVerify (n : nat)                     (* check_NP24: Readers on every shank ap file, comparison *)
+  | SVerifyS (sub : list nat) (n : nat)   (* check_NP24 when shank_info holds the shanks `sub` of a probe with n:
+                                             the window is reassembled from the shank files (zeros elsewhere)
+                                             and compared with the full-width original *)
   | SUnlink (p : path) (missing_ok : bool)
   | SCompBegin (o : owner)                (* mtscomp.compress: open(.cbin_tmp, "wb") *)
   | SCompEnd (o : owner)                  (* ... all chunks written, .ch_tmp written, check passed *)
@@ -96,6 +100,14 @@ Definition all_ap_complete (fs : fsys) (n : nat) : bool :=
   forallb (fun k => complete fs (PFile (Shank k Ap) FBin) && complete fs (PFile (Shank k Ap) FMeta))
           (seq 0 n).
 
+Definition mem (k : nat) (l : list nat) : bool := existsb (Nat.eqb k) l.
+
+(* coverage: the columns of the shank files in shank_info together are every channel of the
+   original (every shank k < n is among them) and each of these files (and its .meta) is complete *)
+Definition verify_cover (fs : fsys) (sub : list nat) (n : nat) : bool :=
+  forallb (fun k => mem k sub) (seq 0 n)
+  && forallb (fun k => complete fs (PFile (Shank k Ap) FBin) && complete fs (PFile (Shank k Ap) FMeta)) sub.
+
 Definition unlink (rs : rstate) (p : path) (missing_ok : bool) : res :=
   if present (r_fs rs) p then Ok (mkR (upd (r_fs rs) p Absent) (r_checked rs))
   else if missing_ok then Ok rs else Err EFileNotFound.
@@ -112,6 +124,12 @@ Definition step_sem (s : step) (rs : rstate) : res :=
                             if (k <? n) && etype_eqb e e'
                             then (if last then Complete else Partial) else fs q
                         | _ => fs q end) ck)
+  | SAppendSub sub e last =>
+      Ok (mkR (fun q => match q with
+                        | PFile (Shank k e') FBin =>
+                            if mem k sub && etype_eqb e e'
+                            then (if last then Complete else Partial) else fs q
+                        | _ => fs q end) ck)
   | SAppend21 last => Ok (mkR (upd fs (PFile Lf21 FBin) (if last then Complete else Partial)) ck)
   | SWriteMeta o =>
       if present fs (PFile o FBin) then Ok (mkR (upd fs (PFile o FMeta) Complete) ck)
@@ -119,6 +137,7 @@ Definition step_sem (s : step) (rs : rstate) : res :=
   | SCorrupt p => if present fs p then Ok (mkR (upd fs p Partial) ck) else Ok rs
   | SCheckBegin => Ok (mkR fs false)
   | SVerify n => if all_ap_complete fs n then Ok (mkR fs true) else Err EAssertion
+  | SVerifyS sub n => if verify_cover fs sub n then Ok (mkR fs true) else Err EAssertion
   | SUnlink p mok => unlink rs p mok
   | SCompBegin o =>
       if present fs (PFile o FBin) then Ok (mkR (upd fs (PFile o FTmp) Partial) ck)
@@ -218,6 +237,41 @@ Definition plan24 (n w : nat) (o : opts) (ow : bool) (corrupt : option nat) (tf 
   if already24 ow fs n then prep24 ow fs n
   else (prep24 ow fs n ++ body24 n w o ow corrupt) ++ del24 o tf.
 
+(* ---- the same with init_params(nshank=sub): only the shanks in `sub` are prepared, written,
+   described, compressed; the verification still compares with the full-width original ---- *)
+Definition prep24s (ow : bool) (fs : fsys) (sub : list nat) : list step :=
+  flat_map (prep_one ow fs) sub.
+Definition already24s (ow : bool) (fs : fsys) (sub : list nat) : bool :=
+  existsb (fun k => present fs (PDir k) && negb ow) sub.
+Definition wins24s (sub : list nat) (w : nat) : list step :=
+  match w with
+  | O => []
+  | S w' => flat_map (fun _ => [SAppendSub sub Ap false; SAppendSub sub Lf false]) (seq 0 w')
+            ++ [SAppendSub sub Ap true; SAppendSub sub Lf true]
+  end.
+Definition metas24s (sub : list nat) : list step :=
+  flat_map (fun k => [SWriteMeta (Shank k Ap)]) sub ++ flat_map (fun k => [SWriteMeta (Shank k Lf)]) sub.
+Definition verify24s (sub : list nat) (n : nat) (corrupt : option nat) : list step :=
+  match corrupt with Some k => [SCorrupt (PFile (Shank k Ap) FBin)] | None => [] end
+  ++ [SCheckBegin; SVerifyS sub n].
+Definition comp24s (ow : bool) (sub : list nat) : list step :=
+  flat_map (fun k => comp_steps ow (Shank k Ap) ++ comp_steps ow (Shank k Lf)) sub.
+Definition body24s (sub : list nat) (n w : nat) (o : opts) (ow : bool) (corrupt : option nat) : list step :=
+  wins24s sub w ++ metas24s sub
+  ++ (if o_post o then verify24s sub n corrupt else [])
+  ++ (if o_comp o then comp24s ow sub else []).
+Definition plan24s (sub : list nat) (n w : nat) (o : opts) (ow : bool) (corrupt : option nat)
+                   (tf : fkind) (fs : fsys) : list step :=
+  if already24s ow fs sub then prep24s ow fs sub
+  else (prep24s ow fs sub ++ body24s sub n w o ow corrupt) ++ del24 o tf.
+
+(* the subsets this model specifies: non-empty (an empty list means "all shanks" to the code),
+   without repetition, shanks of the probe *)
+Fixpoint nodupb (l : list nat) : bool :=
+  match l with [] => true | k :: l' => negb (mem k l') && nodupb l' end.
+Definition sub_ok (sub : list nat) (n : nat) : bool :=
+  negb (Nat.eqb (length sub) 0) && nodupb sub && forallb (fun k => k <? n) sub.
+
 (* _process_NP21: lf file next to the original; compress_NP21 first compresses
    the original in place when it is not yet a .cbin *)
 Definition already21 (ow : bool) (fs : fsys) : bool :=
@@ -237,7 +291,8 @@ Inductive target := TBin | TCbin | TShank (k : nat).
 Record runspec := mkRun {
   r_target : target; r_opts : opts; r_ow : bool;
   r_crash : option nat;       (* raise at this site-call number *)
-  r_corrupt : option nat }.   (* adversary damages shank k's ap.bin just before check_NP24 *)
+  r_corrupt : option nat;     (* adversary damages shank k's ap.bin just before check_NP24 *)
+  r_sub : option (list nat) }.  (* init_params(nshank=sub) *)
 
 Inductive outcome := Status (z : Z) | Raised (e : err).
 Inductive inputst := Present | Missing | Unspec.
@@ -299,9 +354,18 @@ Definition run_once (kd : kind) (n w : nat) (fs : fsys) (r : runspec) : runout :
           match kd with
           | NP1 => noop fs (Status (-1)) false
           | NP24 =>
-              let al := already24 (r_ow r) fs n in
-              go (plan24 n w (r_opts r) (r_ow r) (r_corrupt r) tf fs) (r_crash r) fs
-                 (if al then 0 else 1)%Z (if al then 1 else 0)%Z
+              match r_sub r with
+              | None =>
+                  let al := already24 (r_ow r) fs n in
+                  go (plan24 n w (r_opts r) (r_ow r) (r_corrupt r) tf fs) (r_crash r) fs
+                     (if al then 0 else 1)%Z (if al then 1 else 0)%Z
+              | Some sub =>
+                  if sub_ok sub n then
+                    let al := already24s (r_ow r) fs sub in
+                    go (plan24s sub n w (r_opts r) (r_ow r) (r_corrupt r) tf fs) (r_crash r) fs
+                       (if al then 0 else 1)%Z (if al then 1 else 0)%Z
+                  else noop fs (Raised EUnspecified) false
+              end
           | NP21 =>
               let al := already21 (r_ow r) fs in
               go (plan21 w (r_opts r) (r_ow r) tf fs) (r_crash r) fs
@@ -342,12 +406,13 @@ Definition init_fs (compressed : bool) : fsys :=
                  the end of a successful check_NP24
      ob_tf       form of self.ap_file (.bin, or .cbin once compress_NP21 has replaced it; the
                  reader is reopened with sort=False, like the constructor's)
-     ob_fullbin  self.shank_info lists every shank and every ap entry is still the .bin
+     ob_fullbin  self.shank_info lists every requested shank and every ap entry is still the .bin
                  (what a direct check_NP24() needs; anything else is left unspecified)
      ob_closed   self.sr has been closed and not reopened: delete_NP24 past its guard, or
                  compress_NP21 interrupted between sr.close() and ap_file.unlink() *)
 Record obj := mkObj { ob_opts : opts; ob_checked : bool; ob_tf : fkind;
-                      ob_fullbin : bool; ob_closed : bool }.
+                      ob_fullbin : bool; ob_closed : bool;
+                      ob_sub : option (list nat) }.   (* init_params(nshank=...), fixed for the object *)
 
 Inductive call :=
   | CProcess (ow : bool) (crash corrupt : option nat)   (* obj.process(overwrite=ow) *)
@@ -371,11 +436,22 @@ Definition call_plan (kd : kind) (n w : nat) (ob : obj) (fs : fsys) (c : call)
       match kd with
       | NP1 => Some ([], (-1)%Z, 2%Z)
       | NP24 =>
-          let al := already24 ow fs n in
-          Some (if ob_closed ob
-                then (if al then prep24 ow fs n else prep24 ow fs n ++ [SFail (ob_tf ob)])
-                else plan24 n w (ob_opts ob) ow corrupt (ob_tf ob) fs,
-                if al then 0%Z else 1%Z, if al then 1%Z else 0%Z)
+          match ob_sub ob with
+          | None =>
+              let al := already24 ow fs n in
+              Some (if ob_closed ob
+                    then (if al then prep24 ow fs n else prep24 ow fs n ++ [SFail (ob_tf ob)])
+                    else plan24 n w (ob_opts ob) ow corrupt (ob_tf ob) fs,
+                    if al then 0%Z else 1%Z, if al then 1%Z else 0%Z)
+          | Some sub =>
+              if sub_ok sub n then
+                let al := already24s ow fs sub in
+                Some (if ob_closed ob
+                      then (if al then prep24s ow fs sub else prep24s ow fs sub ++ [SFail (ob_tf ob)])
+                      else plan24s sub n w (ob_opts ob) ow corrupt (ob_tf ob) fs,
+                      if al then 0%Z else 1%Z, if al then 1%Z else 0%Z)
+              else None
+          end
       | NP21 =>
           let al := already21 ow fs in
           Some (if ob_closed ob
@@ -385,7 +461,12 @@ Definition call_plan (kd : kind) (n w : nat) (ob : obj) (fs : fsys) (c : call)
       end
   | CCheck _ corrupt =>
       match kd with
-      | NP24 => if ob_fullbin ob then Some (verify24 n corrupt, 7%Z, 2%Z) else None
+      | NP24 => if ob_fullbin ob
+                then match ob_sub ob with
+                     | None => Some (verify24 n corrupt, 7%Z, 2%Z)
+                     | Some sub => if sub_ok sub n then Some (verify24s sub n corrupt, 7%Z, 2%Z) else None
+                     end
+                else None
       | _ => None
       end
   | CDelete _ =>
@@ -437,8 +518,12 @@ Definition obj_call (kd : kind) (n w : nat) (ob : obj) (fs : fsys) (c : call) : 
       let fullbin' :=
         match c, kd with
         | CProcess ow _ _, NP24 =>
-            if (length (prep24 ow fs n) <=? length executed)%nat
-            then negb (already24 ow fs n) && negb (existsb is_ap_bin_unlink executed)
+            let '(np, al) := match ob_sub ob with
+                             | None => (length (prep24 ow fs n), already24 ow fs n)
+                             | Some sub => (length (prep24s ow fs sub), already24s ow fs sub)
+                             end in
+            if (np <=? length executed)%nat
+            then negb al && negb (existsb is_ap_bin_unlink executed)
             else ob_fullbin ob
         | _, _ => ob_fullbin ob
         end in
@@ -451,7 +536,7 @@ Definition obj_call (kd : kind) (n w : nat) (ob : obj) (fs : fsys) (c : call) : 
                   && negb (existsb (step_eqb_unlink (PFile Orig FBin)) executed)
         | NP1 => false
         end in
-      (mkObj opts' (r_checked rs') tf' fullbin' closed',
+      (mkObj opts' (r_checked rs') tf' fullbin' closed' (ob_sub ob),
        mkOut fs' oc (r_checked rs')
              (match oc with Status _ => al | Raised _ => 2%Z end) false executed)
   end.
@@ -469,5 +554,6 @@ Fixpoint obj_after (kd : kind) (n w : nat) (ob : obj) (fs : fsys) (cs : list cal
   end.
 
 (* NP2Converter(ap_file, post_check, delete_original, compress) on the .bin or the .cbin *)
-Definition new_obj (o : opts) (compressed : bool) : obj :=
-  mkObj o false (if compressed then FCbin else FBin) false false.
+Definition new_obj_sub (o : opts) (compressed : bool) (sub : option (list nat)) : obj :=
+  mkObj o false (if compressed then FCbin else FBin) false false sub.
+Definition new_obj (o : opts) (compressed : bool) : obj := new_obj_sub o compressed None.
